@@ -43,12 +43,12 @@ def Ref(cls, opt=False):
 
 
 def is_opt(ty):
-    return ty.kind == 'ref' and len(ty.args) > 1
+    return ty.kind in ('ref', 'opaque') and len(ty.args) > 1
 
 
-def Opaque(name):
-    """An object whose state is not modelled; identity is an Int."""
-    return Ty('opaque', name)
+def Opaque(name, opt=False):
+    """An object whose state is not modelled; identity is an Int (`opt`: 0 = None)."""
+    return Ty('opaque', name, 'opt') if opt else Ty('opaque', name)
 
 
 def List(elem):
@@ -200,7 +200,7 @@ def box(v):
         return PV.pya(v.t)
     if k == 'json':
         return PV.pj(v.t)
-    if k == 'ref' and is_opt(v.ty):
+    if k in ('ref', 'opaque') and is_opt(v.ty):
         return z3.If(v.t == 0, PV.pnone, PV.po(v.t))
     if k in ('ref', 'opaque'):
         return PV.po(v.t)
@@ -272,7 +272,7 @@ def truth(v):
         return z3.Length(v.t) > 0
     if k == 'list':
         return z3.Length(v.t) > 0
-    if k == 'ref' and is_opt(v.ty):
+    if k in ('ref', 'opaque') and is_opt(v.ty):
         return v.t != 0
     if k in ('ref', 'opaque', 'fn', 'mod', 'exc'):
         return z3.BoolVal(True)
